@@ -162,6 +162,57 @@ func TestVerifC07Flv(t *testing.T) {
 			_, err := p.Decode(b)
 			return err != nil
 		}},
+		// after-error reuse: the same demuxer / packager objects are used again after a rejection
+		{name: "flv.demux.aftererror", gen: func(r *vRng) []byte {
+			return append(vC07Damage(r, vC07FlvFile(r)), vC07FlvTagsBytes(r)...)
+		}, run: func(b []byte) bool {
+			d, _ := NewDemuxer(bytes.NewReader(b))
+			defer d.Close()
+			_, _, _, e0 := d.ReadHeader()
+			errs := 0
+			for i := 0; i < 100000 && errs < 4; i++ {
+				_, size, _, err := d.ReadTagHeader()
+				if err != nil {
+					errs++
+					continue
+				}
+				if _, err = d.ReadTag(size & 0xffffff); err != nil {
+					errs++
+				}
+			}
+			return e0 != nil
+		}},
+		{name: "flv.packager.reuse", gen: func(r *vRng) []byte {
+			if r.chance(1, 2) {
+				return append([]byte{0}, vC07Reuse(vC07FlvAudioTag)(r)...)
+			}
+			return append([]byte{1}, vC07Reuse(vC07FlvVideoTag)(r)...)
+		}, run: func(b []byte) bool {
+			if len(b) < 1 {
+				return true
+			}
+			p1, p2 := vC07Split2(b[1:])
+			if b[0]%2 == 0 {
+				p, _ := NewAudioPackager()
+				f1, e1 := p.Decode(p1)
+				vC07FlvUseAudio(f1)
+				f2, e2 := p.Decode(p2)
+				vC07FlvUseAudio(f2)
+				if f2 != nil {
+					_, _ = p.Encode(f2)
+				}
+				return e1 != nil && e2 != nil
+			}
+			p, _ := NewVideoPackager()
+			f1, e1 := p.Decode(p1)
+			vC07FlvUseVideo(f1)
+			f2, e2 := p.Decode(p2)
+			vC07FlvUseVideo(f2)
+			if f2 != nil {
+				_, _ = p.Encode(f2)
+			}
+			return e1 != nil && e2 != nil
+		}},
 		// enum helper outside the translator's subset: swept without a model
 		{name: "flv.AudioFrameTrait.String", sweep: 1, run: func(b []byte) bool { _ = AudioFrameTrait(b[0]).String(); return false }},
 	}
@@ -196,7 +247,7 @@ func TestVerifC07Flv(t *testing.T) {
 		}},
 	}
 	fams := []*vC07Fam{
-		{name: "flv-dense-tags", dec: "flv.demux", build: vC07FlvDense, cost: "flv.demux"},
+		{name: "flv-dense-tags", dec: "flv.demux", build: vC07FlvDense, cost: "flv.demux", costMax: 32768},
 		{name: "flv-big-tag-then-small", dec: "flv.demux", cost: "flv.demux", build: func(n int) []byte {
 			l := n / 2
 			out := []byte{'F', 'L', 'V', 1, 5, 0, 0, 0, 9, 0, 0, 0, 0, 9, byte(l >> 16), byte(l >> 8), byte(l), 0, 0, 0, 0, 0, 0, 0}
